@@ -63,10 +63,22 @@ def run_variant(prop: str, v: V, root: str = None) -> Dict:
     except SyntaxError as e:
         return {"name": v.name, "kind": v.kind, "outcome": "broken-variant", "detail": str(e)}
     mod = importlib.import_module(f"rules.{prop}")
+    overrides = {v.file: new}
+    if os.environ.get("SELFTEST_RENAMED"):
+        # robustness mode: additionally alpha-rename every local variable of the (mutated) file
+        from selftest.rename import Renamer
+        t = Renamer().visit(ast.parse(new))
+        ast.fix_missing_locations(t)
+        overrides = {v.file: ast.unparse(t) + "\n"}
     try:
-        repo = Repo(root, overrides={v.file: new})
+        repo = Repo(root, overrides=overrides)
         ctx = report.Ctx(repo, prop, "quick", quiet=True)
         mod.run(ctx)
+        un = getattr(repo, "unresolved", {})
+        for r in list(ctx.results):
+            if r.status == "violation" and r.function in un:
+                ctx.results.remove(r)
+                ctx.errors.append((r.rule, f"not trusted (unidentified locals {un[r.function]}): {r.message[:100]}"))
         viols = ctx.violations()
         err = " ; ".join(f"[{rid}] {msg}" for rid, msg in ctx.errors) or None
     except AnalysisError as e:
